@@ -371,7 +371,134 @@ func streamConc(c *Ctx) {
 		}
 		c.Emit("pool.trace "+strings.Join(cevents[i:end], " "), verdict, true)
 	}
+	sharedValueProbes(c)
 	c.Note("%d goroutines x %d calls over %d client configurations; %d buffer-pool and %d codec-pool events recorded", G, K, len(sets), len(events), len(cevents))
+}
+
+// sharedValueProbes (oracle only, sequential - no timing involved): values the *application*
+// shares between calls stay the application's, and values the library hands out per call are
+// per call.
+//
+//	(a) a handler returns one package-level sentinel *connect.Error from every call and sets a
+//	    per-call response trailer: the sentinel is not modified, and each call's error metadata
+//	    carries this call's trailer only;
+//	(b) a client that failed at construction hands every stream its own header maps.
+func sharedValueProbes(c *Ctx) {
+	// (a)
+	for _, proto := range []string{"connect", "grpc", "grpcweb"} {
+		for _, kind := range []string{"server", "bidi"} {
+			sentinel := connect.NewError(connect.CodeResourceExhausted, errors.New("quota"))
+			sentinel.Meta().Set("X-Sentinel", "s")
+			hopts := []connect.HandlerOption{connect.WithCodec(rawCodec{"raw"})}
+			var h http.Handler
+			if kind == "server" {
+				h = connect.NewServerStreamHandler("/s/m", func(ctx context.Context, r *connect.Request[[]byte], s *connect.ServerStream[[]byte]) error {
+					s.ResponseTrailer().Set("X-Call-"+r.Header().Get("X-Call-Id"), "1")
+					return sentinel
+				}, hopts...)
+			} else {
+				h = connect.NewBidiStreamHandler("/s/m", func(ctx context.Context, s *connect.BidiStream[[]byte, []byte]) error {
+					s.ResponseTrailer().Set("X-Call-"+s.RequestHeader().Get("X-Call-Id"), "1")
+					return sentinel
+				}, hopts...)
+			}
+			desc := fmt.Sprintf("%s %s-stream handler returning one shared *connect.Error from every call, per-call response trailers", proto, kind)
+			got := safely(func() string {
+				srv := httptest.NewUnstartedServer(h)
+				srv.EnableHTTP2 = true
+				srv.StartTLS()
+				defer srv.Close()
+				copts := []connect.ClientOption{connect.WithCodec(rawCodec{"raw"})}
+				if proto == "grpc" {
+					copts = append(copts, connect.WithGRPC())
+				} else if proto == "grpcweb" {
+					copts = append(copts, connect.WithGRPCWeb())
+				}
+				cl := connect.NewClient[[]byte, []byte](srv.Client(), srv.URL+"/s/m", copts...)
+				for i := 0; i < 3; i++ {
+					id := fmt.Sprintf("N%d", i)
+					var err error
+					if kind == "server" {
+						req := connect.NewRequest(&[]byte{1})
+						req.Header().Set("X-Call-Id", id)
+						st, cerr := cl.CallServerStream(context.Background(), req)
+						if cerr != nil {
+							return "call: " + cerr.Error()
+						}
+						for st.Receive() {
+						}
+						err = st.Err()
+						_ = st.Close()
+					} else {
+						st := cl.CallBidiStream(context.Background())
+						st.RequestHeader().Set("X-Call-Id", id)
+						_ = st.Send(&[]byte{1})
+						_ = st.CloseRequest()
+						_, err = st.Receive()
+						_ = st.CloseResponse()
+					}
+					var ce *connect.Error
+					if !errors.As(err, &ce) || ce.Code() != connect.CodeResourceExhausted {
+						return fmt.Sprintf("call %d: %v", i, err)
+					}
+					for k := range ce.Meta() {
+						if strings.HasPrefix(k, "X-Call-") && k != "X-Call-"+id {
+							return fmt.Sprintf("call %d: error metadata carries %s of another call", i, k)
+						}
+					}
+					if ce.Meta().Get("X-Call-"+id) != "1" || ce.Meta().Get("X-Sentinel") != "s" {
+						return fmt.Sprintf("call %d: own metadata missing: %v", i, ce.Meta())
+					}
+				}
+				if len(sentinel.Meta()) != 1 {
+					return fmt.Sprintf("the application's error value was modified: meta=%v", sentinel.Meta())
+				}
+				return "ok"
+			})
+			c.Count("conc-shared-sentinel")
+			if got != "ok" {
+				c.Fail("conc-crosstalk-shared-error", desc, got, "per-call trailers leaked through an error value the application shares between calls")
+			}
+		}
+	}
+	// (b)
+	for _, proto := range []string{"connect", "grpc", "grpcweb"} {
+		copts := []connect.ClientOption{connect.WithCodec(rawCodec{"raw"}), connect.WithSendCompression("nope")}
+		if proto == "grpc" {
+			copts = append(copts, connect.WithGRPC())
+		} else if proto == "grpcweb" {
+			copts = append(copts, connect.WithGRPCWeb())
+		}
+		desc := proto + " client that failed at construction (unknown send compression): header maps of successive streams"
+		got := safely(func() string {
+			cl := connect.NewClient[[]byte, []byte](&staticClient{status: 200}, "http://h/s/m", copts...)
+			for i := 0; i < 3; i++ {
+				id := fmt.Sprintf("N%d", i)
+				cs := cl.CallClientStream(context.Background())
+				if len(cs.RequestHeader()) != 0 {
+					return fmt.Sprintf("client stream %d starts with request headers %v", i, cs.RequestHeader())
+				}
+				cs.RequestHeader().Set("X-Call-Id", id)
+				bs := cl.CallBidiStream(context.Background())
+				if len(bs.RequestHeader()) != 0 || len(bs.ResponseHeader()) != 0 || len(bs.ResponseTrailer()) != 0 {
+					return fmt.Sprintf("bidi stream %d starts with headers %v / %v / %v", i, bs.RequestHeader(), bs.ResponseHeader(), bs.ResponseTrailer())
+				}
+				bs.RequestHeader().Set("Authorization", id)
+				bs.ResponseHeader().Set("X-Scribble", id)
+				if got := cs.RequestHeader(); got.Get("Authorization") != "" || got.Get("X-Scribble") != "" {
+					return fmt.Sprintf("client stream %d: sees what another stream wrote: %v", i, got)
+				}
+				_, _ = cs.CloseAndReceive()
+				_ = bs.CloseRequest()
+				_ = bs.CloseResponse()
+			}
+			return "ok"
+		})
+		c.Count("conc-failed-client-headers")
+		if got != "ok" {
+			c.Fail("conc-crosstalk-failed-client", desc, got, "streams of a client that failed at construction share header maps")
+		}
+	}
 }
 
 // traceVerdict: the implementation-side statement is simply what happened; a well-behaved pool
